@@ -19,7 +19,7 @@ FUNCTIONS = ["Grid.get_K_list (symmetry reduction)", "KpointBZparallel.star/abso
 BOUNDS = dict(quick=dict(groups="none, Inversion, C4z, C4z+Inversion, C2z*TimeReversal, Mx+My (cubic cell), C3z, C6z (hexagonal cell)", grids="NKdiv 2x2x1, 2x2x2, 2x2x3, 3x3x1, 4x4x1 (NKFFT 1)",
                          histories="every choice of the refined K-point for one step; for two steps every second choice among the new points of a sample of first choices", adpt_mesh="2, (2,1,2), 3",
                          test_point="symbolic point p of the Brillouin zone (3 reals)", tetra="default 5 tetrahedra, 3 cells x 2 lengths; divide with symbolic vertices on each of the 6 edges, ndiv 2, 3"),
-              thorough=dict(groups="as quick + C4z+Mx+TimeReversal, C2x+C2y", grids="as quick + 4x4x2, 6x6x1 (hex)", histories="all two-step histories", adpt_mesh="2, (2,1,2), 3",
+              thorough=dict(groups="as quick + C4z+Mx+TimeReversal, C2x+C2y", grids="as quick + 4x4x2, 6x6x1 (hex)", histories="every first choice; second step among the last 4 (2x2x1 grid, mesh 2) or 2 new points", adpt_mesh="2, (2,1,2), 3",
                             test_point="symbolic", tetra="as quick + trigonal wedges"))
 EXPLANATION = ("The real grid / K-point code runs on concrete rational geometry. For a symbolic point p of the Brillouin zone z3 decides that the cells of all symmetry images of the retained "
                "K-points, weighted with factor/(star size x cell volume), cover p with total density exactly 1 (QF_LRA), after the initial symmetry reduction and after every refinement "
@@ -368,9 +368,11 @@ def cases(tier, seed):
             for mesh in meshes:
                 with contextlib.redirect_stdout(io.StringIO()):
                     n0 = len(Grid(system=SysG(gens, LATT[latt]), NKdiv=NK, NKFFT=(1, 1, 1)).get_K_list(use_symmetry=True))
-                firsts = range(n0) if (n0 <= 6 or not q) else sorted(set([0, 1, n0 // 2, n0 - 1]))
+                firsts = range(n0) if n0 <= (6 if q else 8) else (sorted(set([0, 1, n0 // 2, n0 - 1])) if q else sorted(set(int(round(x)) for x in np.linspace(0, n0 - 1, 8))))
                 for first in firsts:
-                    seconds = [None, -1, -2] if q else [None] + list(range(-1, -6, -1))
+                    seconds = [None, -1, -2] if q else [None, -1, -2, -3, -4]
+                    if not q and (NK != (2, 2, 1) or mesh != 2):
+                        seconds = [-1, -3] if first % 2 == 0 else [None]
                     if q and NK != (2, 2, 1):
                         seconds = [-1] if first == 0 else [None]
                     for second in seconds:
